@@ -79,7 +79,7 @@ def shards(tier):
 
 def floors(tier):
     return {"cases": 20000, "insertions": 20000, "insertions_depth2plus": 1000, "would_fail_values": 8000,
-            "next_to_ref": 1000, "base_uri_cases": 100, "own_id_next_to_ref": 100, "foreign_sibling_matrix_cases": 50000, "root_ref_cases": 500, "embedded_lookalike_cases": 2000, "empty_or_hash_ref_cases": 1000, "cross_document_chain_cases": 5000, "deep_foreign_value_cases": 1000, "cases_with_errors": 5000, "foreign_names_used": 150,
+            "next_to_ref": 1000, "base_uri_cases": 100, "own_id_next_to_ref": 100, "foreign_sibling_matrix_cases": 50000, "root_ref_cases": 500, "embedded_lookalike_cases": 2000, "empty_or_hash_ref_cases": 1000, "cross_document_chain_cases": 5000, "deep_foreign_value_cases": 1000, "foreign_names_spelled_like_escaped_tokens": 1500, "cases_with_errors": 5000, "foreign_names_used": 150,
             "foreign_id_in_store_document_cases": 100, "check_schema_compared": 5000, "many_foreign_member_cases": 100, "module_validate_with_foreign_dollar_schema": 5000}
 
 
@@ -483,6 +483,32 @@ def deep_foreign_values(ctx, d):
                     deep_foreign_one(ctx, d, name, depth, shape, place, inst)
 
 
+def escaped_spelling_names(ctx, d, rng):
+    """A member the draft does not define may be NAMED anything - also the escaped spelling ('x~1limits', 'a~0b', 'p%25q') of a
+    pointer token some reference in the schema uses for another member ('x/limits', 'a~b', 'p%q')."""
+    pairs = [("x/limits", "x~1limits", "x~1limits"), ("a~b", "a~0b", "a~0b"), ("p%q", "p%25q", "p%25q"), ("s t", "s%20t", "s%20t"), ("~1", "~01", "~01"),
+             ("m/n~o", "m~1n~0o", "m~1n~0o"), ("q/r", "q~1r", "q%7E1r")]
+    for real, spelled, foreign in pairs:
+        for val in ({}, {"type": "null"}, {"enum": []}, 5, [], "s") + ((False, True) if d >= 6 else ()):
+            for place in ("root", "nested"):
+                target = {"type": "integer", "minimum": 3}
+                if place == "root":
+                    S = {real: target, "properties": {"a": {"$ref": "#/" + spelled}, "b": {"items": {"$ref": "#/" + spelled}}}}
+                    S2 = with_key(rng, S, foreign, val)
+                    path = []
+                else:
+                    inner = {real: target, "type": "object"}
+                    S = {"properties": {"n": inner, "a": {"$ref": "#/properties/n/" + spelled}}}
+                    S2 = {"properties": {"n": with_key(rng, inner, foreign, val), "a": {"$ref": "#/properties/n/" + spelled}}}
+                    path = ["properties", "n"]
+                if foreign in S if place == "root" else foreign in inner:
+                    continue
+                log = [{"path": path, "name": foreign, "would_fail": True, "next_to_ref": False, "depth": len(path)}]
+                for inst in ({"a": 1}, {"a": 5}, {"a": "s"}, {"a": None, "b": [1, 7, None]}, {"b": ["s"]}, {"n": {}, "a": 2}):
+                    ctx.count("foreign_names_spelled_like_escaped_tokens")
+                    compare(ctx, d, S, S2, log, inst)
+
+
 def _chain_store():
     far = "http://far.example/lib/defs.json"
     return {far: {"definitions": {"t": {"$ref": "leaf.json"}, "u": {"items": {"$ref": "leaf.json"}},
@@ -593,6 +619,7 @@ def run(ctx):
             empty_ref_cases(ctx, d, rr)
             cross_document_chains(ctx, d, rr)
             deep_foreign_values(ctx, d)
+            escaped_spelling_names(ctx, d, rr)
             root_ref_cases(ctx, d, rr)
             embedded_lookalikes(ctx, d, rr)
             foreign_id_in_store_documents(ctx, d)
